@@ -694,6 +694,19 @@ class Gen:
                      f"progress(0, {i()}, 50, width={self.int_lit(1, 20)})", f"progress(0, {i()}, {self.int_lit(1, 200)}, width={self.int_lit(1, 20)}, style={self.choice(['block', 'hash', 'pipe', 'dot'])!r}, label={txt()})",
                      f"animate({self.choice(['scroll', 'blink', 'typewriter', 'bounce'])!r}, 0, {txt()}, speed_ms={small()}, loop={self.choice(['True', 'False'])})"]
         opts = calls.get(k)
+        if opts is None and self.chance(0.15):
+            # the same glyph bitmap uploaded twice from different C++ scopes (block then after it, or before a block then inside it)
+            self.feat("device_call:" + k)
+            self.feat("glyph_two_scopes")
+            bm = self.choice(["[1, 2, 4, 8, 16, 31, 0, 21]", "[0, 10, 31, 31, 14, 4, 0, 0]"])
+            g1, g2 = f"{k}.glyph({self.int_lit(0, 7)}, {bm})", f"{k}.glyph({self.int_lit(0, 7)}, {bm})"
+            form = self.choice(["block_then_after", "before_then_block", "two_blocks"])
+            cond = f"if {self.e_bool(1)}:"
+            if form == "block_then_after":
+                return [("b", cond, [("s", g1)]), ("s", g2)]
+            if form == "before_then_block":
+                return [("s", g1), ("b", cond, [("s", g2), ("s", f"{k}.write(0, 0, 'g')")])]
+            return [("b", cond, [("s", g1)]), ("b", f"if {self.e_bool(1)}:", [("s", g2)])]
         if opts is None:
             opts = lcd_calls
         if not opts:
